@@ -5,6 +5,7 @@ import re
 
 import lib
 from lib import sx, parse_sx
+from props.parts import pep440ref
 
 PROOF_FILE = "C08"
 LEVEL = "proof"
@@ -12,7 +13,8 @@ RULE = ("generated PyPI universes (5-10 packages, 1-5 versions incl. a/b/rc/dev/
         "operator and comma lists, markers over python_version/sys_platform/os_name/extra, extras requested by root "
         "and inner requirements, cycles through the root, conflict templates forcing backtracking, templates of the "
         "known defect shapes, requirements on a package the client does not know, extras names with case and "
-        "separator variants) x every version as root; a case is non-trivial when the graph has at least 3 nodes "
+        "separator variants, versions listing one package several times, pairs of requirements one of which names a "
+        "pre-release next to an exclusive comparison whose post- and pre-releases exist) x every version as root; a case is non-trivial when the graph has at least 3 nodes "
         "and a false marker was dropped, or the model backtracked, or the resolver asked for the requirements of a "
         "version that is not in the final graph (a rejected or abandoned candidate)")
 TRUSTED = [
@@ -20,8 +22,12 @@ TRUSTED = [
     "translator harness/go/cmd/gotables (maxRounds, attribute keys, VersionType numbers, delayed name regenerated each run)",
     "extraction (ExtrOcamlBasic only) + Extract/driver.ml; Go harness cmd/implrun (pypires.go: recording and table clients); "
     "python generator and direct oracle",
-    "pypi.VerifParseEvalMarker and semver.PyPI (ParseConstraint/HasPrerelease/MatchVersionPrerelease/Compare) as oracles: "
-    "marker and specifier semantics are properties C16 and C03",
+    "pypi.VerifParseEvalMarker and semver.PyPI (ParseConstraint/HasPrerelease/MatchVersionPrerelease/Compare) as oracles for "
+    "the model: marker and specifier semantics are properties C16 and C03; the direct oracle re-judges markers with its own "
+    "PEP 508 evaluation of the generated trees and every edge target and empty candidate list with an independent PEP 440 "
+    "specifier evaluation (harness/props/parts/pep440ref.py, transcribed from PEP 440 / packaging.specifiers), which abstains "
+    "outside its domain and on classes of the matcher (two clauses meeting at one version: F-C03-1a; !=V against post- and "
+    "pre-releases of V; arbitrary equality ===)",
 ]
 ASSUMPTIONS = [
     "model validated against the implementation by execution on generated universes (same recorded client table on both "
@@ -64,7 +70,7 @@ CONCRETE, REQUIREMENT = 1, 2
 K_EXTRAS, K_ENV = 7, 10
 
 VERSION_POOL = [b"0.9", b"1.0", b"1.1", b"1.2", b"2.0", b"2.1", b"3.0", b"1.0a1", b"1.1b2", b"2.0rc1", b"2.0a2",
-                b"3.0.dev1", b"1.0.post1", b"2.1.dev3", b"3.0b1", b"0.5", b"1.5", b"2.5rc2"]
+                b"3.0.dev1", b"1.0.post1", b"2.1.dev3", b"3.0b1", b"0.5", b"1.5", b"2.5rc2", b"2.0.post2", b"1.1.post1"]
 MARKERS = [b'python_version >= "3.6"', b'python_version < "3"', b'python_version == "3.9"', b'sys_platform == "linux"',
            b'sys_platform == "win32"', b'os_name == "posix"', b'os_name == "nt"', b'os_name != "nt"',
            b'extra == "e1"', b'extra == "e2"', b'python_version >= "3" and extra == "e1"',
@@ -386,6 +392,9 @@ def gen_universe(rng):
             uni[d][v] = [[e, b"", [[K_ENV, extra_marker(rng, xa)]]], [f, b"", [[K_ENV, extra_marker(rng, xb)]]]]
     if rng.random() < 0.10:
         rejected_extras_template(rng, names, vers, uni)
+    if rng.random() < 0.12:
+        prerelease_pair_template(rng, names, vers, uni)
+    repeated_requirements(rng, names, vers, uni)
     if rng.random() < 0.04 and npk >= 7:
         # F-C08-3: x requests z[e2] and is then cut off because w is re-pinned; needs x < y < z by name
         cand_w = [n for n in names if len([v for v in vers[n] if vkey(v)[1] == 3]) >= 2]
@@ -476,6 +485,63 @@ def rejected_extras_template(rng, names, vers, uni):
         uni[top][v] = [list(d) for d in direct]
 
 
+def repeated_requirements(rng, names, vers, uni):
+    """A version may list one package several times: the same specifier and marker text with other extras, an exact
+    duplicate, or another specifier.  (Of several requirements one version places on a package the resolver keeps
+    the last when it pins the version, and all of them for the direct dependencies of the root.)"""
+    for n in names:
+        for v in vers[n]:
+            reqs = uni[n][v]
+            if not reqs or rng.random() > 0.07:
+                continue
+            for _ in range(rng.randrange(1, 3)):
+                tgt, spec, ty = rng.choice(reqs)
+                if tgt == GHOST:
+                    continue
+                env = [e for e in ty if e[0] == K_ENV]
+                r = rng.random()
+                if r < 0.5:        # same specifier and marker text, different extras
+                    have = dict((k, x) for k, x in ty).get(K_EXTRAS)
+                    other = [e for e in VOCAB if e != have]
+                    new = [tgt, spec, [[K_EXTRAS, rng.choice(other)]] + env]
+                elif r < 0.7:      # exact duplicate
+                    new = [tgt, spec, [list(e) for e in ty]]
+                else:              # another specifier, same marker text
+                    new = [tgt, gen_spec(rng, vers.get(tgt, [])), [list(e) for e in ty]]
+                reqs.insert(rng.randrange(len(reqs) + 1), new)
+
+
+def prerelease_pair_template(rng, names, vers, uni):
+    """Two requirements on x from different dependents, one naming a pre-release: findMatches then matches both with
+    pre-releases admitted.  The other is an exclusive comparison against a version V of x whose post-release (and
+    often a pre-release) exists, so that what `>V` and `<V` exclude is on offer."""
+    if len(names) < 4:
+        return
+    top, a, b, x = rng.sample(names, 4)
+    finals = sorted([v for v in vers[x] if vkey(v)[1] == 3], key=vkey)
+    if not finals:
+        return
+    V = rng.choice(finals)
+    extra = [V + b".post1"]
+    if rng.random() < 0.6:
+        extra.append(V + rng.choice([b"rc1", b"a2", b".dev1"]))
+    for w in extra:
+        if w not in vers[x]:
+            vers[x].append(w)
+            uni[x][w] = [list(r) for r in uni[x][V]] if rng.random() < 0.5 else []
+    pre = rng.choice([v for v in VERSION_POOL if vkey(v)[1] in (0, 1, 2)])
+    naming = rng.choice([b">=" + min(pre, V, key=vkey) if vkey(pre)[1] < 3 and vkey(pre) < vkey(V) else b"<=" + pre,
+                         b">=0.1a1", b"<=9.0rc1"])
+    excl = rng.choice([b">" + V, b"<" + V, b">" + V + b",<9", b">=" + V, b"!=" + V])
+    for v in vers[top]:
+        set_req(uni[top][v], a, b"", [])
+        set_req(uni[top][v], b, b"", [])
+    for v in vers[a]:
+        set_req(uni[a][v], x, excl, [])
+    for v in vers[b]:
+        set_req(uni[b][v], x, naming, [])
+
+
 def drop_req(reqs, tgt):
     reqs[:] = [e for e in reqs if e[0] != tgt]
 
@@ -537,6 +603,7 @@ class Oracle:
         self.all_extras = sorted(set(e for _, ex, _, _ in oracles[0] for e in ex))
         self.mv = {}
         self.pkg_pre = {}
+        self._pre_ref = {}
         for pkg, rq, ok, mv, withpre, has_pre in direct:
             self.mv[(pkg, rq)] = (ok, mv, withpre)
             self.pkg_pre[pkg] = self.pkg_pre.get(pkg, False) or bool(has_pre)
@@ -571,6 +638,26 @@ class Oracle:
         if pkg == self.root[0]:
             return w == self.root[1] and good
         return good
+
+    def pre_admitted(self, pkg):
+        """some requirement that the universe places on pkg names a pre-release (by the reference's reading or by
+        Constraint.HasPrerelease): the resolver may then match every requirement on pkg with pre-releases admitted"""
+        if pkg not in self._pre_ref:
+            named = False
+            for (p, rq) in self.mv:
+                if p == pkg:
+                    sp = pep440ref.parse_spec(rq)
+                    named = named or bool(sp and pep440ref.names_prerelease(sp))
+            self._pre_ref[pkg] = named or self.pkg_pre.get(pkg, False)
+        return self._pre_ref[pkg]
+
+    def ref_satisfies(self, pkg, rq, w):
+        """the independent PEP 440 evaluation of `w satisfies rq`; None: outside its domain, or inside a recorded
+        class of the matcher (property C03): two clauses meeting at one version (F-C03-1a)"""
+        sp = pep440ref.parse_spec(rq)
+        if sp is None or pep440ref.touching(sp):
+            return None
+        return pep440ref.satisfies(rq, w, self.pre_admitted(pkg))
 
     def check(self, obs):
         """returns list of (clause, detail) hits"""
@@ -607,6 +694,13 @@ class Oracle:
             if reqs is None:
                 hits.append(("unknown_node", nv))
                 continue
+            # of several requirements that one version places on a package the resolver keeps the last one when it
+            # pins the version (the property is stated for at most one; pip at the modelled release does the same);
+            # the direct dependencies of the root are all merged
+            per_pkg = {}
+            for tgt, rq, ty in reqs:
+                if self.marker_val(ty, extras[nv]):
+                    per_pkg.setdefault(tgt, []).append((rq, ty))
             for tgt, rq, ty in reqs:
                 val = self.marker_val(ty, extras[nv])
                 if val is None:
@@ -614,6 +708,11 @@ class Oracle:
                 matching = [tk for tk, erq, ety in out[nv] if tk[0] == tgt and erq == rq and ety == ty]
                 if val:
                     if not matching:
+                        group = per_pkg.get(tgt, [])
+                        direct_of_root = nv == nodes[0] and self.marker_val(ty, []) is True
+                        if len(group) > 1 and not direct_of_root:
+                            if any(tk[0] == tgt and (erq, ety) in group for tk, erq, ety in out[nv]) or (rq, ty) != group[-1]:
+                                continue     # another requirement of the group has its edge, or report once per group
                         hits.append(("edge_missing", (nv, tgt, rq, ty, sorted(extras[nv]))))
                     else:
                         for tk in matching:
@@ -621,6 +720,8 @@ class Oracle:
                                 hits.append(("edge_to_unselected", (nv, tk)))
                             if not self.satisfies(tgt, rq, tk[1]):
                                 hits.append(("edge_unsatisfied", (nv, tk, rq)))
+                            elif self.ref_satisfies(tgt, rq, tk[1]) is False:
+                                hits.append(("edge_unsatisfied_by_pep440", (nv, tk, rq)))
                 else:
                     if matching:
                         hits.append(("false_marker_edge", (nv, tgt, rq, ty, sorted(extras[nv]))))
@@ -648,6 +749,16 @@ def classify(hit, orc):
         if extras and orc.marker_val(ty, []) is False:
             return "F-C08-2"     # true only through extras: the requirement was decided before the extra was requested
         return "F-C08-1"         # the required package is pinned but hasRouteToRoot left it out
+    if clause == "edge_unsatisfied_by_pep440":
+        nv, tk, rq = d
+        sp = pep440ref.parse_spec(rq)
+        w = pep440ref.parse_version(tk[1])
+        _, mv, withpre = orc.mv.get((tk[0], rq), (0, [], []))
+        if sp and w is not None and w.is_pre and (tk[1] in mv or tk[1] in withpre):
+            # the matcher itself (plain, or with pre-releases admitted) accepts a pre-release that PEP 440 does not
+            # accept for this specifier: unnamed pre-releases below an open lower bound, pre-releases of V for <V
+            return "F-C08-5"
+        return None
     if clause == "stale_edge":
         fk, tk, rq, ty = d
         others = [reqs for v, reqs in orc.uni.get(fk[0], {}).items() if v != fk[1]]
@@ -716,6 +827,31 @@ def run_batch(ctx, unis, label):
         markers, direct, per, _ = o
         impl_obs, model_obs, nb_list = parse_sx(il), parse_sx(ml), parse_sx(nbl)
         orc_tables = [markers, []]
+        for pkg, rq, ok, mv, withpre, has_pre in direct:
+            # the matcher's answers against the independent PEP 440 evaluation (measured; specifier semantics is C03),
+            # and every "no candidate at all" re-judged: it turns a solvable root into a graph-level error
+            sp = pep440ref.parse_spec(rq)
+            if sp is None or pep440ref.touching(sp):
+                ctx.count("specifier_outside_reference_domain")
+                continue
+            cands = [v for v in uni.get(pkg, {}).keys()]
+            verdicts = [(v, pep440ref.satisfies(rq, v, False)) for v in cands]
+            if any(r is None for _, r in verdicts):
+                ctx.count("specifier_outside_reference_domain")
+                continue
+            ctx.count("specifier_answers_compared_with_reference", len(verdicts))
+            ref_yes = [v for v, r in verdicts if r]
+            diff = sorted(set(ref_yes) ^ set(mv))
+            if diff:
+                ctx.count("specifier_answers_differing_from_reference", len(diff))
+                if any(not pep440ref.parse_version(v).is_pre for v in diff):
+                    ctx.count("specifier_answers_differing_on_a_final_or_post_release")
+            ref_final = [v for v in ref_yes if not pep440ref.parse_version(v).is_pre]
+            if not mv and ref_final:
+                ctx.violation("MatchingVersions finds no candidate for a requirement that final releases of the package "
+                              "satisfy (PEP 440): every root that needs it ends in a graph-level error",
+                              {"kind": "pypi_record", "arg": record_arg(names, vers, uni, roots[:1])},
+                              observed=sx([pkg, rq, mv]), required=sx([pkg, rq, ref_final]))
         for m, ex, ok, val in markers:      # measured only: marker semantics is C16; the graph clauses below report
             tree = MARKER_AST.get(m)
             if tree is not None and ok:
@@ -755,7 +891,7 @@ def run_batch(ctx, unis, label):
             for which, g in seen_objs:
                 for h in orc.check(g):
                     kf = classify(h, orc)
-                    if kf is not None and not orc.marker_agrees(h[1][3]):
+                    if kf is not None and len(h[1]) > 3 and not orc.marker_agrees(h[1][3]):
                         kf = None      # the marker itself is evaluated wrongly: not an instance of a known class
                     if kf is not None and repr(h) in model_hits:
                         ctx.known_hits[kf] = ctx.known_hits.get(kf, 0) + 1
